@@ -242,7 +242,10 @@ def _rewrite_logs(text: str):
         if sm:
             end += sm.end()
         old = text[mm.start():end]
-        text = text[:mm.start()] + "\n" * old.count("\n") + text[end:]
+        # expression position (`pat => warn!(..),` / `.unwrap_or_else(|_| warn!(..))`): the unit value stays
+        before = m[:mm.start()].rstrip()
+        filler = "()" if (not sm and (before.endswith("=>") or before.endswith("|"))) else ""
+        text = text[:mm.start()] + filler + "\n" * old.count("\n") + text[end:]
         cnt += 1
     return text, cnt
 
